@@ -171,6 +171,8 @@ class CallMixin:
         # builtin base behind super()
         found = src.find_method(cls, name, after=after) if cls in src.classes or after else None
         contract = reg.find(src, cls, name, after=after)
+        if contract is not None and found is not None and contract.cls != found[0] and contract.cls in src.mro(found[0]):
+            contract = None     # an override without a contract of its own: never use the overridden method's contract
         if found is None and contract is None and after is None and recv.e is not None and self.reg.attr_decl(src, cls, name):
             for st1, fv in self.getattr_(st, recv, name, cx):
                 if isinstance(fv, Raise):
@@ -387,7 +389,7 @@ class CallMixin:
                     self.side_obligation("pre", "%s.type-%s" % (c.qual, p), st, o.is_type(names[p].e, ty), c.qual)
             for lbl, rq in c.requires.items():
                 g = self.spec_truth(st, rq, cc.with_spec(sp0))
-                self.side_obligation("pre", "%s.%s" % (c.qual, lbl), st, g, c.qual)
+                self.side_obligation("pre", "%s.%s" % (c.qual, lbl), st, g, c.qual, skolems=sp0.skolems)
         # hints from declared param types
         for p, ty in c.params.items():
             if p in names and names[p] is not None and names[p].ty is None and not ty.startswith("opt:") and "|" not in ty and ty not in ("any", "V"):
@@ -452,7 +454,26 @@ class CallMixin:
                 if ":" in loc:
                     kind, loc = loc.split(":", 1)
                 sp = Spec(old, names)
-                if kind is None:
+                if kind is None and loc.endswith(".*"):
+                    tgt = self.ev1(old, ast.parse(loc[:-2], mode="eval").body, cc.with_spec(sp))
+                    tcls = tgt.ty[4:] if tgt.ty and tgt.ty.startswith("ref:") else None
+                    if tcls is None:
+                        raise Unsupported("modifies %s: unknown class" % loc)
+                    r = o.r(tgt)
+                    seen = set()
+                    for kcls in self.src.mro(tcls):
+                        for (dc, da), decl in self.reg.attrs.items():
+                            if dc != kcls or da in seen:
+                                continue
+                            seen.add(da)
+                            if decl.startswith("rep:"):
+                                _, rk, slot = decl.split(":")
+                                rr = w.rep(r, int(slot))
+                                for a in {"dict": ("$map", "$dom", "$len", "$keys", "$pos"), "set": ("$dom", "$len"), "list": ("$items", "$len")}[rk]:
+                                    s.wr(a, rr, w.fresh(a.strip("$"), w.SORTS[w.SPECIAL[a]]))
+                            else:
+                                s.wr(dc + "." + da, r, w.freshV(da))
+                elif kind is None:
                     base, _, attr = loc.rpartition(".")
                     tgt = self.ev1(old, ast.parse(base, mode="eval").body, cc.with_spec(sp))
                     attr = mangle(c.cls, attr)
@@ -666,12 +687,15 @@ class CallMixin:
         sp = cx.spec
         var, kind = e.args[0].value.split(":")
         body = self.parse_spec(e.args[1].value)
-        sort = {"ref": z3.IntSort(), "int": z3.IntSort(), "key": w.V, "val": w.V, "str": z3.StringSort()}[kind]
+        sort = {"ref": z3.IntSort(), "cfg": z3.IntSort(), "int": z3.IntSort(), "key": w.V, "val": w.V, "str": z3.StringSort()}[kind]
 
         def inst(t, st=st, cx=cx):
             names = dict(sp.names)
-            names[var] = SV(w.V.ref(t), "ref:object") if kind == "ref" else (SV(w.V.int(t), "int") if kind == "int" else (SV(w.V.str(t), "str") if kind == "str" else SV(t)))
-            sp2 = Spec(sp.old, names, sp.oldnames, sp.exc, sp.mode)
+            names[var] = {"ref": lambda: SV(w.V.ref(t), "ref:object"), "cfg": lambda: SV(w.V.ref(t), "ref:Config"),
+                          "int": lambda: SV(w.V.int(t), "int"), "str": lambda: SV(w.V.str(t), "str")}.get(kind, lambda: SV(t))()
+            onames = dict(sp.oldnames)
+            onames[var] = names[var]
+            sp2 = Spec(sp.old, names, onames, sp.exc, sp.mode)
             st2 = st.clone()
             n0 = len(st2.pc)
             f = self.spec_truth(st2, body, cx.with_spec(sp2))
